@@ -21,7 +21,31 @@ fn roundtrip(data: &[u8], level: i32) -> Result<(u8, Vec<u8>, Vec<u8>), String> 
     Ok((marker, c, p))
 }
 
+/// The repetitiveness measure as the property's threshold rule describes it (fraction of
+/// positions equal to the one `offset` further on, over the ACGT positions), for offset 4 only:
+/// used to build inputs that sit exactly on the 0.5 threshold.
+fn exactly_half_repetitive(rng: &mut Rng) -> Vec<u8> {
+    let m = rng.usize(2, 300);
+    let len = 4 + 2 * m;
+    let mut equal: Vec<bool> = (0..2 * m).map(|j| j < m).collect();
+    rng.shuffle(&mut equal);
+    let mut d: Vec<u8> = (0..4).map(|_| rng.below(4) as u8).collect();
+    for j in 4..len {
+        let prev = d[j - 4];
+        d.push(if equal[j - 4] { prev } else { (prev + 1 + rng.below(3) as u8) % 4 });
+    }
+    d
+}
+
 fn gen(rng: &mut Rng, i: u64) -> Vec<u8> {
+    if i % 25 == 3 {
+        return exactly_half_repetitive(rng);
+    }
+    if i % 1250 == 7 {
+        // incompressible and longer than five 128 KiB ZSTD blocks
+        let len = rng.usize(660_000, 1_500_000);
+        return (0..len).map(|_| rng.below(256) as u8).collect();
+    }
     let len = match rng.below(10) {
         0 => rng.usize(0, 8),
         1 => rng.usize(0, 70),
@@ -66,6 +90,12 @@ pub fn run(args: &Args, rep: &mut Report) {
             Ok((marker, c, p)) => {
                 rep.count(if marker == 0 { "reference_plain_zstd" } else { "reference_tuple_packed" }, 1);
                 rep.count("bytes_compressed", data.len() as u64);
+                if i % 25 == 3 {
+                    rep.count("strings_exactly_on_the_repetitiveness_threshold", 1);
+                }
+                if data.len() > 655_360 {
+                    rep.count("incompressible_strings_longer_than_five_zstd_blocks", 1);
+                }
                 if data.len() > 8 {
                     rep.nontrivial(fnv(&data) ^ level as u64);
                 }
